@@ -88,6 +88,9 @@ class Recorder:
 
     def check_cholesky(self, args, kw, L):
         A, L = np.asarray(args[0], dtype=float), np.asarray(L, dtype=float)
+        # jnp.linalg.cholesky factorises the symmetrised input (A + A^T)/2; Gram matrices are symmetric only up to rounding
+        if A.ndim == 2 and A.shape[0] == A.shape[1]:
+            A = 0.5 * (A + A.T)
         self.counts["cholesky"] += 1
         self.last["chol"] = (A, L)
         n = A.shape[0]
